@@ -14,6 +14,7 @@ Rules, written from the class docstring, `types.py`, `space.py` and `reward.py` 
 (C12 proves that the observation is exactly that selection and that the selection is the documented order).
 """
 import contextlib
+import copy
 
 import jax
 import jax.numpy as jnp
@@ -138,7 +139,7 @@ def container_volume(s):
 
 def utilisation(s):
     """documented objective: volume of the packed items / volume of the container"""
-    return jnp.sum(jnp.where(s.items_placed, item_volumes(s), 0.0)) / container_volume(s)
+    return jnp.sum(item_volumes(s) * s.items_placed) / container_volume(s)
 
 
 def num_unplaced(s):
@@ -239,6 +240,14 @@ def spec_obs(env, s):
     return out
 
 
+def snapshot(s):
+    """a distinct State object with the same leaves.  BinPack's `_pack_item/_update_ems/_make_observation_and_extras` assign to
+    the fields of the state object they are given; `lax.cond` normally hands them a fresh object, but under
+    `jax.disable_jit()` (used by the replay of problems with abstract functions) it is the caller's object, and `step`
+    then overwrites its own argument.  The contract keeps `s` as the pre-state and gives `step` a copy."""
+    return copy.copy(s)
+
+
 def obs_field(o, name):
     v = o
     for part in name.split("."):
@@ -273,7 +282,7 @@ def problems(env, cfg, tier):
         return out
 
     def ens(s, a):
-        s2, ts = env.step(s, a)
+        s2, ts = env.step(snapshot(s), a)
         o = ts.observation
         ok = pick2(legal(env, s), a)
         last = ts.step_type == K.LAST
@@ -325,7 +334,7 @@ def problems(env, cfg, tier):
         return out
 
     def s2_util_step(s, s2, ok, chosen):
-        gain = jnp.sum(jnp.where(ok & chosen, item_volumes(s), 0.0)) / container_volume(s)
+        gain = jnp.sum(item_volumes(s) * (ok & chosen)) / container_volume(s)
         return utilisation(s2) == utilisation(s) + gain
 
     step = dict(title=f"BinPack.step@{cfg}", args=(state, a), requires=req, ensures=ens, workers=6, timeout=300,
@@ -342,7 +351,7 @@ def problems(env, cfg, tier):
     def order_ens_for(frame):
         def order_ens(s, a):
             with abstract_volume():
-                s2, ts = env.step(s, a)
+                s2, ts = env.step(snapshot(s), a)
                 ok = pick2(legal(env, s), a)
                 identical = jnp.asarray(True)  # canary scenario in which the order does not depend on the volume function
                 for c in COORDS:
@@ -392,7 +401,7 @@ def problems(env, cfg, tier):
                 "in_spec": E.in_spec(env, a)}
 
     def geo_ens(s, a):
-        s2, ts = env.step(s, a)
+        s2, ts = env.step(snapshot(s), a)
         out = {"canary.no_item_is_ever_packed": (s2.items_placed == s.items_placed).all()}
         for k, v in feasible(env, s2).items():  # after ANY in-spec action (an illegal one leaves the state untouched), also on LAST
             out["C06.feasible_" + k] = v
